@@ -67,7 +67,8 @@ func (r *yieldRewriter) rewriteRanges(block *ast.BlockStmt) {
 			case *types.Chan:
 				do(cstNewChanIter, n.X)
 			case *types.Signature:
-				panic("implement me: range func")
+				// range over func: left as it is (also inside nested closures);
+				// a yield in its body is rejected by the stmt rewriter
 			}
 		}
 		return true
